@@ -391,3 +391,37 @@ pub fn catch<R>(f: impl FnOnce() -> R) -> Result<R, String> {
         }),
     }
 }
+
+// ---------------------------------------------------------------- journal (child-process isolation)
+
+thread_local! {
+    static JOURNAL: std::cell::RefCell<Option<std::fs::File>> = const { std::cell::RefCell::new(None) };
+}
+static JOURNAL_SEQ: std::sync::atomic::AtomicU64 = std::sync::atomic::AtomicU64::new(0);
+
+/// When VCHECK_JOURNAL_DIR is set (the process runs as a supervised child), record the case that
+/// is about to execute, so that an abnormal termination (SIGABRT from std's ub_checks, SIGSEGV) can
+/// be attributed to it by the supervising parent.
+pub fn journal(case: impl FnOnce() -> Value) {
+    let Ok(dir) = std::env::var("VCHECK_JOURNAL_DIR") else { return };
+    JOURNAL.with(|j| {
+        use std::io::{Seek, SeekFrom, Write};
+        let mut j = j.borrow_mut();
+        if j.is_none() {
+            let n = JOURNAL_SEQ.fetch_add(1, Ordering::Relaxed);
+            *j = std::fs::File::create(format!("{dir}/j-{n}.json")).ok();
+        }
+        if let Some(f) = j.as_mut() {
+            let body = case().to_string();
+            let _ = f.seek(SeekFrom::Start(0));
+            let _ = f.set_len(0);
+            let _ = f.write_all(body.as_bytes());
+            let _ = f.flush();
+        }
+    });
+}
+
+/// classification of a caught panic message
+pub fn is_hook_panic(msg: &str) -> bool {
+    msg.contains("VERIF-HOOK")
+}
